@@ -8,6 +8,10 @@
 //!              installed: conformance sample for the wait seam of C12 (a sanity sample, not a verdict
 //!              about latency: tolerance 60 ms).
 //!
+//! * `idle-burst` — n1 idle callbacks in one dispatch, then n2 in the next one of which one inserts a
+//!              follow-up idle that inserts another (n1, n2 in 1..=12, every position): the size
+//!              history of the idle queue must not matter (C13, C08).
+//!
 //! These spaces are small and enumerated completely: (kind x size x handler variant).
 
 use std::cell::Cell;
@@ -378,6 +382,107 @@ pub fn wait_real() -> Report {
         rep.samples.push(serde_json::json!({"timeout_ms": timeout.map(|d| d.as_millis() as u64), "timer_ms": timer.map(|d| d.as_millis() as u64), "took_ms": took.as_millis() as u64, "fired": fired}));
     }
     rep.samples.truncate(4);
+    rep.states = rep.executions;
+    rep.distinct_outcomes = outcomes.len() as u64;
+    rep.distinct_nontrivial = outcomes.len() as u64;
+    rep.violation_count = rep.violations.len() as u64;
+    rep.levels_completed = vec![0];
+    rep.wall_s = start.elapsed().as_secs_f64();
+    rep
+}
+
+
+/// `idle-burst`: on one loop, a dispatch with n1 plain idles, then a dispatch with n2 idles of which
+/// the one at position j inserts a follow-up (which inserts a second follow-up when it runs), for
+/// every n1, n2 in 1..=12 and every j: the n2 idles run in insertion order in their dispatch, the
+/// follow-up in the next one, its own follow-up in the one after, each exactly once.
+pub fn idle_burst() -> Report {
+    seqhooks::install();
+    crate::quiet_panics();
+    let start = Instant::now();
+    let mut rep = Report { driver: "idle-burst".into(), exhaustive: true, ..Default::default() };
+    let mut outcomes = std::collections::HashSet::new();
+    type Log = Vec<(u32, u32)>; // (idle id, dispatch number)
+    struct St {
+        log: Log,
+        round: u32,
+        h: Option<LoopHandle<'static, St>>,
+    }
+    for n1 in 0..=12u32 {
+        for n2 in 1..=12u32 {
+            for j in 0..n2 {
+                let snapshot = rep.violations.len();
+                let r = std::panic::catch_unwind(std::panic::AssertUnwindSafe(|| {
+                    seqhooks::reset();
+                    let mut el: EventLoop<'static, St> = EventLoop::try_new().unwrap();
+                    let h = el.handle();
+                    let mut st = St { log: vec![], round: 0, h: Some(h.clone()) };
+                    let mut want: Log = vec![];
+                    if n1 > 0 {
+                        for i in 0..n1 {
+                            let _ = h.insert_idle(move |st: &mut St| st.log.push((i, st.round)));
+                            want.push((i, 1));
+                        }
+                        st.round = 1;
+                        el.dispatch(Some(Duration::ZERO), &mut st).unwrap();
+                        rep.transitions += 1;
+                    }
+                    let base = 100;
+                    let first = st.round + 1;
+                    for i in 0..n2 {
+                        if i == j {
+                            let _ = h.insert_idle(move |st: &mut St| {
+                                st.log.push((base + i, st.round));
+                                let h = st.h.clone().unwrap();
+                                let _ = h.insert_idle(move |st: &mut St| {
+                                    st.log.push((1000, st.round));
+                                    let h = st.h.clone().unwrap();
+                                    let _ = h.insert_idle(move |st: &mut St| st.log.push((2000, st.round)));
+                                });
+                            });
+                        } else {
+                            let _ = h.insert_idle(move |st: &mut St| st.log.push((base + i, st.round)));
+                        }
+                        want.push((base + i, first));
+                    }
+                    want.push((1000, first + 1));
+                    want.push((2000, first + 2));
+                    for _ in 0..4 {
+                        st.round += 1;
+                        el.dispatch(Some(Duration::ZERO), &mut st).unwrap();
+                        rep.transitions += 1;
+                    }
+                    st.h.take();
+                    (st.log, want)
+                }));
+                rep.executions += 1;
+                *rep.clause_counts.entry("idle-burst".into()).or_insert(0) += 1;
+                match r {
+                    Ok((got, want)) => {
+                        outcomes.insert(got.clone());
+                        if got != want {
+                            let missing: Vec<_> = want.iter().filter(|w| !got.iter().any(|g| g.0 == w.0)).map(|w| w.0).collect();
+                            let clause = if !missing.is_empty() { "idle-not-run" } else { "idle-order-or-dispatch" };
+                            rep.violations.push(viol(
+                                &["C13", "C08"],
+                                clause,
+                                &[("follow_up_lost", missing.iter().any(|m| *m >= 1000).to_string())],
+                                format!("{n1} idles in the first dispatch, then {n2} idles with the one at position {j} inserting a follow-up: ran (id, dispatch) {got:?}, expected {want:?}"),
+                            ));
+                        }
+                    }
+                    Err(p) => {
+                        let msg = p.downcast_ref::<String>().cloned().or_else(|| p.downcast_ref::<&str>().map(|s| s.to_string())).unwrap_or_else(|| "panic".into());
+                        rep.violations.truncate(snapshot);
+                        rep.violations.push(viol(&["C13", "C08"], "panic-in-dispatch", &[], format!("n1={n1} n2={n2} j={j}: the loop panicked: {msg}")));
+                    }
+                }
+            }
+        }
+    }
+    // keep one violation per clause/feature combination
+    let mut seen = std::collections::HashSet::new();
+    rep.violations.retain(|v| seen.insert(v.signature()));
     rep.states = rep.executions;
     rep.distinct_outcomes = outcomes.len() as u64;
     rep.distinct_nontrivial = outcomes.len() as u64;
